@@ -1,5 +1,44 @@
 // C20: ctpk::read on generated containers and their prefixes (see h_tex.rs for the line formats).
+//   ctpk codec : A-codec table check - for every single byte b and every two-byte string [l, t]: does encoding_rs
+//                decode it as Shift-JIS without error and encode the result back to the same bytes?  One hex bitmap
+//                (256 + 65536 bits, most significant bit first) to be compared with the model's sjis_encoded.
 use crate::h_tex::*;
+use encoding_rs::SHIFT_JIS;
+
+fn lossless(b: &[u8]) -> bool {
+    let (s, had_errors) = SHIFT_JIS.decode_without_bom_handling(b);
+    if had_errors {
+        return false;
+    }
+    let (b2, _, bad) = SHIFT_JIS.encode(&s);
+    !bad && b2.as_ref() == b
+}
+
 pub fn run(toks: &[&str]) -> String {
+    if toks[0] == "codec" {
+        let mut bits: Vec<bool> = Vec::with_capacity(256 + 65536);
+        for b in 0u16..256 {
+            bits.push(lossless(&[b as u8]));
+        }
+        for l in 0u16..256 {
+            for t in 0u16..256 {
+                bits.push(lossless(&[l as u8, t as u8]));
+            }
+        }
+        let mut s = String::with_capacity(bits.len() / 4 + 1);
+        for c in bits.chunks(4) {
+            let mut v = 0;
+            for (i, x) in c.iter().enumerate() {
+                if *x {
+                    v |= 8 >> i;
+                }
+            }
+            s.push(std::char::from_digit(v, 16).unwrap());
+        }
+        return s;
+    }
+    if toks[0] == "f32" {
+        return f32_probe(toks, mila::ctpk::read, ctpk_tail);
+    }
     run_kind(toks, mila::ctpk::read, enc_sjis)
 }
